@@ -18,6 +18,12 @@ SIMPORTS = ("From PKO Require Import Base Owner Api Phase ObjectSet Slices.\n"
 
 F_C14 = ("C14 sliced ObjectSet is torn down/archived before its slices are loaded: objects in slices are not deleted "
          "in order (deletion) or not at all (archival)")
+ID_DEPLOYVIEW = ("C14 the ObjectDeployment controller (archive decision) sees other objects for a revision whose objects live in "
+                 "ObjectSlices than for the same revision with the objects inline")
+ID_DEPLOYVIEW_MISSING = ("C14 the ObjectDeployment controller (archive decision) takes a partial object list for a revision although one "
+                         "of its ObjectSlices cannot be read")
+ID_TEARDOWN = ("C14 a deleted / archived ObjectSet referencing ObjectSlices is not torn down like the ObjectSet with the objects of its "
+               "existing slices inline (objects of a slice left behind, or deleted out of order)")
 ID_ACTIVE = "C14 sliced ObjectSet rolls out or reports status differently from the same ObjectSet with the objects inline"
 ID_MISSING = ("C14 an ObjectSet whose referenced slice cannot be loaded is rolled out anyway "
               "(member or phase objects written, or availability newly reported, without the slice's objects)")
@@ -386,8 +392,16 @@ def slice_twin(r, sc, p_drop=0.12, p_fault=0.4):
         names = []
         if moved or r.random() < 0.1:
             mobjs = [objs[i] for i in moved]
-            cut = r.randint(0, len(mobjs)) if r.random() < 0.6 else None
-            parts = [mobjs] if cut is None else [mobjs[:cut], mobjs[cut:]]
+            x = r.random()
+            if x < 0.3:
+                parts = [mobjs]
+            elif x < 0.75:
+                cut = r.randint(0, len(mobjs))
+                parts = [mobjs[:cut], mobjs[cut:]]
+            else:
+                c1 = r.randint(0, len(mobjs))
+                c2 = r.randint(c1, len(mobjs))
+                parts = [mobjs[:c1], mobjs[c1:c2], mobjs[c2:]]
             for part in parts:
                 owners = [DEP_REF]
                 y = r.random()
@@ -404,7 +418,10 @@ def slice_twin(r, sc, p_drop=0.12, p_fault=0.4):
         ph["objects"] = [o for i, o in enumerate(objs) if i not in moved]
     missing = None
     if drop and slices:
-        missing = slices.pop(r.randrange(len(slices)))
+        # one or several referenced slices are gone (any subset, also the first of a phase with later ones still there)
+        for _ in range(r.choice([1, 1, 2, 3])):
+            if slices:
+                missing = slices.pop(r.randrange(len(slices)))
     if r.random() < 0.1 and slices:
         slices.append({"ns": 2 if t["ns"] else 0, "name": slices[0]["name"] if t["ns"] else 69, "objects": [], "owners": [], "rv": 39})
     by = {(s["ns"], s["name"]): s for s in slices}
@@ -505,6 +522,30 @@ def missing_witnesses():
     return out
 
 
+def gone_witnesses():
+    """Deleted / archived ObjectSet, one phase with three slices of one controlled object each; every non-empty subset
+    of the slices is gone. The teardown handler skips a slice that is gone and still loads the later ones: the twin
+    carries exactly the objects of the slices that exist."""
+    out = []
+    for archived in (False, True):
+        for mask in range(1, 8):
+            inline = copy.deepcopy(WITNESS)
+            t = inline["sets"][0]
+            if archived:
+                t["deleting"], t["life"] = False, 2
+            inline["store"] = [pl.mk_obj(1, 1, i, 7 + 2 * i, 8 + 2 * i, owners=[[1, 10, 100, 1]], rev=1) for i in (1, 2, 3)]
+            t["ctrlof"] = [{"gk": 1, "ns": 1, "name": i} for i in (1, 2, 3)]
+            sliced = copy.deepcopy(inline)
+            sliced["sets"][0]["phases"] = [{"name": 1, "class": False, "objects": []}]
+            sliced["refs"] = [{"kind": 1, "ns": 1, "name": 10, "slices": [[71, 72, 73]]}]
+            sliced["slices"] = [{"ns": 1, "name": 70 + i, "objects": [pl.mk_pobj(1, 0, i)], "owners": [[1, 10, 100, 0]], "rv": 2 + i}
+                                for i in (1, 2, 3) if not mask & (1 << (i - 1))]
+            sliced["next_srv"] = 9
+            t["phases"] = [{"name": 1, "class": False, "objects": [pl.mk_pobj(1, 0, i) for i in (1, 2, 3) if not mask & (1 << (i - 1))]}]
+            out.append({"sliced": sliced, "inline": inline, "missing": True})
+    return out
+
+
 def c_slice(s):
     return "((%d, %d), Build_slice %s %s %d)" % (s["ns"], s["name"], cL([pl.c_pobj(o) for o in s["objects"]]),
                                                  cL([pl.c_ref(x) for x in s["owners"]]), s["rv"])
@@ -584,7 +625,9 @@ def sliced_stage(run, pairs, fixed, ids=None):
         if not fmon:
             run.violation(ids.get("fault", ID_FAULT), replay, True)
         if not mon:
-            run.violation(F_C14 if going else ID_ACTIVE, replay, True)
+            # F_C14 names the defect of the controller that tears down before loading slices at all; a tree that does load
+            # them (the witness decides) and still differs is reported under the general identity
+            run.violation(ids.get("going", ID_TEARDOWN if fixed else F_C14) if going else ids.get("active", ID_ACTIVE), replay, True)
         elif not a_sliced and mmon and fmon:
             run.violation("corr:%s/sliced ObjectSet pass: model (%s) and implementation differ" % (run.pid, "sliced_pass_fixed" if fixed else "sliced_pass"),
                           dict(replay, correspondence="C14SliceCorr.xagree_sliced"), False)
@@ -595,6 +638,46 @@ def sliced_stage(run, pairs, fixed, ids=None):
                                       "target": [s for s in pairs[i]["sliced"]["sets"] if s["name"] == 10][0]},
                          "impl": {"sliced": {k: outs[i]["obs"]["sliced"][k] for k in ("res", "events")},
                                   "inline": {k: outs[i]["obs"]["inline"][k] for k in ("res", "events")}}} for i in idx[2:3]]
+
+
+def objects_stage(run, pairs):
+    """The archive reconciler's view (real getObjectsIncludingSlices) of the sliced target vs its inline twin."""
+    scs = []
+    for p in pairs:
+        t = p["sliced"]["target"]
+        pick = lambda w: [s for s in w["sets"] if (s["kind"], s["ns"], s["name"]) == (t["kind"], t["ns"], t["name"])][0]
+        scs.append({"set": pick(p["sliced"]), "refs": p["sliced"]["refs"][0]["slices"], "slices": p["sliced"]["slices"],
+                    "inline": pick(p["inline"])})
+    outs = vlib.run_harness("sliceobjects", scs, par=8)
+    terms, idx = [], []
+    for i, (sc, o) in enumerate(zip(scs, outs)):
+        if "obs" not in o:
+            run.violation("corr:C14/sliceobjects harness error or panic", {"scenario": sc, "out": o}, False)
+            continue
+        ob = o["obs"]
+        terms.append("(Build_ocase %s %s %s %s %s %s)" % (
+            sl.c_set(sc["set"]), cL([cL([cN(n) for n in ph]) for ph in sc["refs"]]), cL([c_slice(x) for x in sc["slices"]]),
+            cB(bool(ob.get("err"))), cL([pl.c_key(k) for k in ob["keys"]]), cL([pl.c_key(k) for k in ob["inline"]])))
+        idx.append(i)
+    res, logs = vlib.judge_cases(run.pid, SIMPORTS, "ojudge", terms, 2, tag="objects")
+    for l in logs:
+        run.violation("corr:C14/coq-eval", {"correspondence": "coq evaluation failed (sliceobjects)", "log": l}, False)
+    for i, r in zip(idx, res):
+        if r is None:
+            continue
+        sc, ob = scs[i], outs[i]["obs"]
+        agree, mon = r
+        if any(sc["refs"]):
+            run.classes.add(("objects", sc["set"]["kind"], bool(ob.get("err")), len(ob["keys"]) > 0,
+                             any(o["ns"] == 0 for x in sc["slices"] for o in x["objects"])))
+        if not mon:
+            have = {(x["ns"], x["name"]) for x in sc["slices"]}
+            miss = any((sc["set"]["ns"], n) not in have for ph in sc["refs"] for n in ph)
+            run.violation(ID_DEPLOYVIEW_MISSING if miss else ID_DEPLOYVIEW, {"scenario": sc, "impl": ob}, True)
+        elif not agree:
+            run.violation("corr:C14/deployment view of a sliced revision: model and implementation differ",
+                          {"correspondence": "C14SliceCorr.oagree", "scenario": sc, "impl": ob}, False)
+    return len(terms), []
 
 
 def gen_pairs(seed, tier):
@@ -608,10 +691,11 @@ def gen_pairs(seed, tier):
             base.append(setgen.gen_scenario(rr, mode))
     # a fifth of the scenarios with delegated phases (mixed phase lists)
     base = [delegate_some(r, sc) if r.random() < 0.2 else sc for sc in base]
-    return [witness_pair(), witness_pair(True)] + fault_witnesses() + missing_witnesses() + [slice_twin(r, sc) for sc in base]
+    return ([witness_pair(), witness_pair(True)] + fault_witnesses() + missing_witnesses() + gone_witnesses() +
+            [slice_twin(r, sc) for sc in base])
 
 
-def sliced_extra(run, tier, seed, which, identity, replay=None):
+def sliced_extra(run, tier, seed, which, identity, replay=None, going_identity=None):
     """Additive stage for C03 (which="missing": a slice of an earlier phase cannot be loaded in an active pass) and C04
     (which="fault": a slice read fails while a deleted / archived ObjectSet is torn down): the sliced twin machinery of
     C14, focused on that clause and reported under the caller's identity. Judged by C14SliceCorr.mmonitor / fmonitor
@@ -629,9 +713,12 @@ def sliced_extra(run, tier, seed, which, identity, replay=None):
         if which == "missing":
             modes, kw, pairs = ["active", "active", "active", "new", "paused"], {"p_drop": 1.0, "p_fault": 0.0}, missing_witnesses()
         else:
-            modes, kw, pairs = ["deleting", "deleting", "archived"], {"p_drop": 0.05, "p_fault": 1.0}, fault_witnesses()
+            modes, kw, pairs = ["deleting", "deleting", "archived"], {"p_drop": 0.3, "p_fault": 0.6}, fault_witnesses() + gone_witnesses()
         pairs = pairs + [slice_twin(r, setgen.gen_scenario(r, r.choice(modes)), **kw) for _ in range(n)]
-    n, _ = sliced_stage(run, pairs, fixed, {which: identity})
+    ids = {which: identity}
+    if going_identity:
+        ids["going"] = going_identity
+    n, _ = sliced_stage(run, pairs, fixed, ids)
     run.cov["evaluations"] += n
     run.cov["rule"] += ("; sliced twins (C14 machinery): %s" % ("active ObjectSets with a referenced slice missing" if which == "missing"
                         else "deleting / archived ObjectSets with a failing slice read (500, timeout, 410, transport error)"))
@@ -654,6 +741,8 @@ def check(run, tier, seed, replay=None):
         "slices all exist; a referenced slice that is missing is judged by the missing-slice clause (no rollout, no new claim of availability)",
         "read faults: only Gets of ObjectSlices issued while a deleted / archived ObjectSet is torn down are scripted (one failing read per pass: "
         "500, ServerTimeout, 410 Gone, transport error without API status); every error other than NotFound must abort the pass",
+        "deployment-controller view: getObjectsIncludingSlices is run on the target ObjectSet of the sliced twins with a reader as fresh as the "
+        "store; identifiers are compared as multisets; the archive decision built on it is C08's",
         "slice GC holders: every ObjectSet the collector lists counts, whatever its lifecycle state (active, paused, archived, being deleted)",
     ]
     vlib.std_proof_stage(run, "C14")
@@ -675,6 +764,11 @@ def check(run, tier, seed, replay=None):
             n, samples = names_stage(run, [sc])
         elif "steps" in sc:
             n, samples = gc_stage(run, [sc])
+        elif "set" in sc and "inline" in sc:
+            outs = None
+            n, samples = objects_stage(run, [{"sliced": {"target": {k: sc["set"][k] for k in ("kind", "ns", "name")}, "sets": [sc["set"]],
+                                                         "refs": [{"slices": sc["refs"]}], "slices": sc["slices"]},
+                                              "inline": {"sets": [sc["inline"]]}}])
         else:
             sc.setdefault("missing", False)
             n, samples = sliced_stage(run, [sc], fixed)
@@ -685,9 +779,12 @@ def check(run, tier, seed, replay=None):
     n1, s1 = chunk_stage(run, gen(seed, tier))
     n2, s2 = names_stage(run, gen_names(seed, tier))
     n3, s3 = gc_stage(run, gen_gc(seed, tier))
-    n4, s4 = sliced_stage(run, gen_pairs(seed, tier), fixed)
-    run.cov["evaluations"] = n1 + n2 + n3 + n4
-    run.notes.append("evaluations per stage: chunk %d, slice names %d, slice GC (deploy steps) %d, sliced/inline twin passes %d" % (n1, n2, n3, n4))
+    pairs = gen_pairs(seed, tier)
+    n4, s4 = sliced_stage(run, pairs, fixed)
+    n5, _ = objects_stage(run, pairs)
+    run.cov["evaluations"] = n1 + n2 + n3 + n4 + n5
+    run.notes.append("evaluations per stage: chunk %d, slice names %d, slice GC (deploy steps) %d, sliced/inline twin passes %d, "
+                     "deployment-controller views %d" % (n1, n2, n3, n4, n5))
     run.cov["rule"] = (
         "chunk: size vectors in twelfths of the real 1 MiB limit +- a few bytes, objects padded to the exact size; non-trivial = at least two "
         "objects; distinct = (strategy, bypass, slice-length vector). names: every holder (content x controller kind) of the first two names of a "
